@@ -13,31 +13,28 @@ import ScyllaVerif.Proofs.DecodeRT
 namespace ScyllaVerif.Props.C08
 open ScyllaVerif.C08
 
-/-- The pipeline yields a decoded value or an error kind — there is no third outcome (no panic / no divergence in
-the model; the harness checks that the implementation never shows one either). -/
-theorem outcome_total (f : Features) (cached : Option ResultMeta) (decomp : Option (Bytes → Option Bytes))
-    (bs : Bytes) :
-    (∃ d, (decode f cached decomp bs).1 = .ok d) ∨ (∃ k, (decode f cached decomp bs).1 = .err k) := by
-  cases h : (decode f cached decomp bs).1 with
-  | ok d => exact .inl ⟨d, rfl⟩
-  | err k => exact .inr ⟨k, rfl⟩
-
 /-! ### allocation proportional to the input, recursion depth bounded
 
 `St.alloc` counts every element slot requested through `Vec::with_capacity` / `HashMap::with_capacity` where the
 (fixed) Rust code requests them; `St.depth` the deepest recursion level of the two type parsers.  Both bounds hold
 whether decoding succeeds or fails. -/
 
-private theorem body_bounds (f : Features) (cached : Option ResultMeta) (h : Header) (body : Bytes) :
-    (decodeBody f cached h body).2.alloc ≤ 2 * body.length + 131070 ∧
-    (decodeBody f cached h body).2.depth ≤ 257 := by
+private theorem body_bounds (f : Features) (cached : Option ResultMeta) (h : Header) (body : Bytes)
+    (uni : List (Bytes × UCls)) :
+    (decodeBody f cached h body uni).2.alloc ≤ 2 * body.length + 131070 ∧
+    (decodeBody f cached h body uni).2.depth ≤ 257 ∧
+    (∀ site, (decodeBody f cached h body uni).1 ≠ .panic site) ∧
+    (∀ d rs site, (decodeBody f cached h body uni).1 = .ok d → d.rowsStage = some rs → rs.dm ≠ .panic site) := by
   unfold decodeBody
-  have h1 := aw2_parseExt h.flags { buf := body }
-  cases he : parseExt h.flags { buf := body } with
+  have h1 := aw2_parseExt h.flags { buf := body, uni := uni }
+  cases he : parseExt h.flags { buf := body, uni := uni } with
   | mk o s1 =>
     rw [he] at h1
     cases o with
-    | err k => simp only [U16, DEPTH_BOUND] at h1 ⊢; omega
+    | panic k => exact h1.elim
+    | err k =>
+      simp only [U16, DEPTH_BOUND] at h1 ⊢
+      exact And.intro (by omega) (And.intro (by omega) (And.intro (fun site hh => by cases hh) (fun d rs site hh => by cases hh)))
     | ok ext =>
       simp only [U16, DEPTH_BOUND] at h1 ⊢
       have h2 := aw2_deserResponse f h.opcode s1
@@ -45,7 +42,10 @@ private theorem body_bounds (f : Features) (cached : Option ResultMeta) (h : Hea
       | mk o2 s2 =>
         rw [hr] at h2
         cases o2 with
-        | err k => simp only [U16, DEPTH_BOUND] at h2 ⊢; omega
+        | panic k => exact h2.elim
+        | err k =>
+          simp only [U16, DEPTH_BOUND] at h2 ⊢
+          exact And.intro (by omega) (And.intro (by omega) (And.intro (fun site hh => by cases hh) (fun d rs site hh => by cases hh)))
         | ok resp =>
           simp only [U16, DEPTH_BOUND] at h2 ⊢
           split
@@ -56,15 +56,76 @@ private theorem body_bounds (f : Features) (cached : Option ResultMeta) (h : Hea
             | mk o3 s3 =>
               rw [hm] at h3
               cases o3 with
-              | err k => simp only [U16, DEPTH_BOUND] at h3 ⊢; omega
-              | ok d => simp only [U16, DEPTH_BOUND] at h3 ⊢; omega
-          · simp only []; omega
+              | panic k => exact h3.elim
+              | err k =>
+                simp only [U16, DEPTH_BOUND] at h3 ⊢
+                refine And.intro (by omega) (And.intro (by omega) (And.intro (fun site hh => by cases hh) ?_))
+                intro d rs site hd hrs
+                injection hd with hd; subst hd
+                simp only [Option.some.injEq] at hrs; subst hrs
+                intro hh; cases hh
+              | ok d =>
+                simp only [U16, DEPTH_BOUND] at h3 ⊢
+                refine And.intro (by omega) (And.intro (by omega) (And.intro (fun site hh => by cases hh) ?_))
+                intro d' rs site hd hrs
+                injection hd with hd; subst hd
+                simp only [Option.some.injEq] at hrs; subst hrs
+                intro hh; cases hh
+          · simp only []
+            refine And.intro (by omega) (And.intro (by omega) (And.intro (fun site hh => by cases hh) ?_))
+            intro d rs site hd hrs
+            injection hd with hd; subst hd
+            simp at hrs
+
+/-! ### never a panic
+
+`Outcome` has a third constructor `panic site`, produced by the model exactly at the partial operations of the Rust
+code: `Bytes::advance(n)` with `n > remaining` and the `body_len - buf_len` subtraction
+(`parse_response_body_extensions`, frame/mod.rs:231-262), `raw.try_into().unwrap()` (`read_uuid`, types.rs:360),
+`Bytes::slice_ref` outside its parent (result.rs:353, 1064), `from_utf8(chunk).unwrap()` in `from_hex`
+(custom_type_parser.rs; reported through `deserType`).  `as usize` / `as u16` casts wrap and are modelled as the wrap.
+The theorems say that none of these sites is reachable, whatever the bytes: every guard precedes its partial
+operation.  (They follow from the invariant `AllocW`, whose `panic` branch is `False`, proved for every decoder in
+Proofs/DecodeAlloc.lean.) -/
+
+/-- Decoding a body — extensions, response, metadata stage of a Rows result — never panics. -/
+theorem no_panic_body (f : Features) (cached : Option ResultMeta) (h : Header) (body : Bytes)
+    (uni : List (Bytes × UCls)) (site : String) :
+    (decodeBody f cached h body uni).1 ≠ .panic site ∧
+    ∀ d rs, (decodeBody f cached h body uni).1 = .ok d → d.rowsStage = some rs → rs.dm ≠ .panic site :=
+  ⟨(body_bounds f cached h body uni).2.2.1 site, fun d rs => (body_bounds f cached h body uni).2.2.2 d rs site⟩
+
+/-- The whole pipeline never panics, for ALL byte strings, features, cached metadata and decompressors. -/
+theorem no_panic (f : Features) (cached : Option ResultMeta) (decomp : Option (Bytes → Option Bytes))
+    (bs : Bytes) (uni : List (Bytes × UCls)) (site : String) : (decode f cached decomp bs uni).1 ≠ .panic site := by
+  unfold decode
+  cases hp : parseFrame bs with
+  | error k => simp
+  | ok h =>
+    simp only []
+    split
+    · cases decomp with
+      | none => simp
+      | some d =>
+        simp only []
+        cases hdb : d h.body with
+        | none => simp
+        | some body => exact (no_panic_body f cached h body uni site).1
+    · exact (no_panic_body f cached h h.body uni site).1
+
+/-- Each primitive reader on its own never panics either (here: the one with an `unwrap`). -/
+theorem no_panic_readUuid (s : St) (site : String) : (readUuid s).1 ≠ .panic site := by
+  have := aw_readUuid (A := 1) (B := 0) (Nat.le_refl _) s
+  intro h
+  cases hr : readUuid s with
+  | mk o s1 => rw [hr] at this h; simp only at h; subst h; exact this
 
 /-- Requested allocation is proportional to the size of the (decompressed) body: at most two element slots per
 input byte plus two `u16`-counted lists (the only counts taken as sent), whatever the bytes are. -/
-theorem alloc_proportional_body (f : Features) (cached : Option ResultMeta) (h : Header) (body : Bytes) :
-    (decodeBody f cached h body).2.alloc ≤ 2 * body.length + 131070 :=
-  (body_bounds f cached h body).1
+theorem alloc_proportional_body (f : Features) (cached : Option ResultMeta) (h : Header) (body : Bytes)
+    (uni : List (Bytes × UCls)) :
+    (decodeBody f cached h body uni).2.alloc ≤ 2 * body.length + 131070 :=
+  (body_bounds f cached h body uni).1
 
 private theorem parseFrame_body_le (bs : Bytes) (h : Header) (hp : parseFrame bs = .ok h) :
     h.body.length ≤ bs.length := by
@@ -88,8 +149,8 @@ private theorem parseFrame_body_le (bs : Bytes) (h : Header) (hp : parseFrame bs
               omega
 
 /-- The whole pipeline on an uncompressed connection: `allocReq ≤ K · bs.length + K₀` with `K = 2`, `K₀ = 131070`. -/
-theorem alloc_proportional (f : Features) (cached : Option ResultMeta) (bs : Bytes) :
-    (decode f cached none bs).2.alloc ≤ 2 * bs.length + 131070 := by
+theorem alloc_proportional (f : Features) (cached : Option ResultMeta) (bs : Bytes) (uni : List (Bytes × UCls)) :
+    (decode f cached none bs uni).2.alloc ≤ 2 * bs.length + 131070 := by
   unfold decode
   cases hp : parseFrame bs with
   | error k => simp
@@ -98,14 +159,15 @@ theorem alloc_proportional (f : Features) (cached : Option ResultMeta) (bs : Byt
     simp only []
     split
     · simp
-    · have := alloc_proportional_body f cached h h.body
+    · have := alloc_proportional_body f cached h h.body uni
       omega
 
 /-- With a negotiated decompressor whose expansion is bounded (`R · len + R₀`; the LZ4 / Snappy guards of
 `decompress` enforce 255·len + 64 resp. 64·len + 64 on the declared size) the bound is relative to that. -/
 theorem alloc_proportional_compressed (f : Features) (cached : Option ResultMeta) (d : Bytes → Option Bytes)
-    (R R0 : Nat) (hd : ∀ b b', d b = some b' → b'.length ≤ R * b.length + R0) (bs : Bytes) :
-    (decode f cached (some d) bs).2.alloc ≤ 2 * ((R + 1) * bs.length + R0) + 131070 := by
+    (R R0 : Nat) (hd : ∀ b b', d b = some b' → b'.length ≤ R * b.length + R0) (bs : Bytes)
+    (uni : List (Bytes × UCls)) :
+    (decode f cached (some d) bs uni).2.alloc ≤ 2 * ((R + 1) * bs.length + R0) + 131070 := by
   unfold decode
   cases hp : parseFrame bs with
   | error k => simp
@@ -117,17 +179,17 @@ theorem alloc_proportional_compressed (f : Features) (cached : Option ResultMeta
       | none => simp
       | some body =>
         simp only []
-        have h1 := alloc_proportional_body f cached h body
+        have h1 := alloc_proportional_body f cached h body uni
         have h2 := hd _ _ hdb
         have : R * h.body.length ≤ R * bs.length := Nat.mul_le_mul_left _ hl
         rw [Nat.add_mul]; omega
-    · have := alloc_proportional_body f cached h h.body
+    · have := alloc_proportional_body f cached h h.body uni
       rw [Nat.add_mul]; omega
 
 /-- Recursion depth is bounded by a constant, whatever the bytes are: at most 129 nested binary type
 descriptions (depth 0..128) plus 128 nested `do_parse` calls of the custom type string parser. -/
 theorem depth_bounded (f : Features) (cached : Option ResultMeta) (decomp : Option (Bytes → Option Bytes))
-    (bs : Bytes) : (decode f cached decomp bs).2.depth ≤ 128 + 129 := by
+    (bs : Bytes) (uni : List (Bytes × UCls)) : (decode f cached decomp bs uni).2.depth ≤ 128 + 129 := by
   unfold decode
   cases hp : parseFrame bs with
   | error k => simp
@@ -140,8 +202,8 @@ theorem depth_bounded (f : Features) (cached : Option ResultMeta) (decomp : Opti
         simp only []
         cases hdb : d h.body with
         | none => simp
-        | some body => exact (body_bounds f cached h body).2
-    · exact (body_bounds f cached h h.body).2
+        | some body => exact (body_bounds f cached h body uni).2.1
+    · exact (body_bounds f cached h h.body uni).2.1
 
 /-! ### primitives: round trip and truncation
 (wire encoders `encShort`, `encInt`, `encString`, … are defined from the protocol specification in Proofs/DecodeRT.lean) -/
@@ -308,22 +370,22 @@ theorem wellformed_roundtrip (f : Features) (ch : Choices) (r : Response) (h : W
       | void =>
         simp only [encBody]
         rw [← List.append_nil (encInt 1)]
-        exact rt_bind (rt_tag _ (rt_readInt 1 (by omega))) (by simpa using rt_pure ResultResp.void)
+        exact rt_bind (rt_tracked (rt_tag _ (rt_readInt 1 (by omega)))) (by simpa using rt_pure ResultResp.void)
       | rows r =>
         simp only [encBody]
-        exact rt_bind (rt_tag _ (rt_readInt 2 (by omega))) (by
-          simpa using rt_map ResultResp.rows (rt_deserRawRows f r h))
+        exact rt_bind (rt_tracked (rt_tag _ (rt_readInt 2 (by omega)))) (by
+          simpa using rt_bind0 rt_sliceRef_true (rt_map ResultResp.rows (rt_deserRawRows f r h)))
       | setKeyspace ks =>
         simp only [encBody]
-        exact rt_bind (rt_tag _ (rt_readInt 3 (by omega))) (by
+        exact rt_bind (rt_tracked (rt_tag _ (rt_readInt 3 (by omega)))) (by
           simpa using rt_map ResultResp.setKeyspace (rt_tag "setks" (rt_readString ks h)))
       | prepared p =>
         simp only [encBody]
-        exact rt_bind (rt_tag _ (rt_readInt 4 (by omega))) (by
+        exact rt_bind (rt_tracked (rt_tag _ (rt_readInt 4 (by omega)))) (by
           simpa using rt_map ResultResp.prepared (rt_deserPrepared f ch.global ch.noMeta p h))
       | schemaChange sc =>
         simp only [encBody]
-        exact rt_bind (rt_tag _ (rt_readInt 5 (by omega))) (by
+        exact rt_bind (rt_tracked (rt_tag _ (rt_readInt 5 (by omega)))) (by
           simpa using rt_map ResultResp.schemaChange (rt_deserSchemaChange sc h))
     simpa [deserResponse, opcodeOf] using rt_map Response.result key
 
@@ -377,13 +439,13 @@ theorem truncation_is_error_partial (f : Features) (ch : Choices) (r : Response)
     cases rr with
     | void =>
       have : TR (deserResult f) (encInt 1) := by
-        unfold deserResult; exact tr_bindL (tr_tag _ (tr_readInt 1))
+        unfold deserResult; exact tr_bindL (tr_tracked (tr_tag _ (tr_readInt 1)))
       simpa [deserResponse, opcodeOf, encBody] using
         tr_bindL (f := fun r => (pure (Response.result r) : M Response)) this
     | setKeyspace ks =>
       have : TR (deserResult f) (encInt 3 ++ encString ks) := by
         unfold deserResult
-        refine tr_bind (rt_tag _ (rt_readInt 3 (by omega))) (tr_tag _ (tr_readInt 3)) ?_
+        refine tr_bind (rt_tracked (rt_tag _ (rt_readInt 3 (by omega)))) (tr_tracked (tr_tag _ (tr_readInt 3))) ?_
         simp only [show ((3 : Int) = 1) = False by decide, show ((3 : Int) = 2) = False by decide, if_false, if_true]
         exact tr_bindL (tr_tag _ (tr_readString ks h.1))
       simpa [deserResponse, opcodeOf, encBody] using
@@ -400,7 +462,7 @@ theorem truncation_is_error_partial (f : Features) (ch : Choices) (r : Response)
 /-- READY frame `84 00 0000 02 00000000` decodes. -/
 example : (match (decode {} none none [0x84, 0, 0, 0, 0x02, 0, 0, 0, 0]).1 with
     | .ok d => d.hdr.opcode == 2 && d.ext.warnings.isEmpty
-    | .err _ => false) = true := by
+    | _ => false) = true := by
   decide +kernel
 
 /-- A RESULT/Rows body announcing `i32::MAX` columns (the F4 input) is an error and requests at most 3 slots. -/
